@@ -144,14 +144,17 @@ def looks_fresh(cfg, forbidden):
     if any(fk) and k == fk: return 'AuthKey of the rejected sector survived'
     return None
 
-def http_post(rng):
+def http_post(rng, kind='full'):
     def val(n): return bytes(rng.choice(b'abcdefghijklmnopqrstuvwxyz0123456789') for _ in range(rng.randrange(1, n)))
     f = [b'pwd=' + val(20), b'sid=' + val(30), b'wpw=' + val(40), b'svr=' + val(30) + b'.org', b'eml=' + val(12) + b'%40' + val(8) + b'.pl']
     if rng.random() < 0.5: f.append(b'lid=%d' % rng.randrange(1, 99999))
     if rng.random() < 0.3: f.append(b'led=%d' % rng.randrange(0, 3))
     if rng.random() < 0.3: f.append(b'upd=1')
     rng.shuffle(f)
+    if kind == 'get': return b'GET / HTTP/1.1\r\nHost: 192.168.4.1\r\n\r\n'
+    if kind == 'few': f = f[:rng.randrange(1, 4)]            # fewer than four recognised fields: nothing may be saved or committed
     body = b'&'.join(f)
+    if kind == 'other': return b'POST /x HTTP/1.1\r\nHost: 192.168.4.1\r\nContent-Length: %d\r\n\r\n' % len(body) + body
     return b'POST / HTTP/1.1\r\nHost: 192.168.4.1\r\nContent-Length: %d\r\n\r\n' % len(body) + body
 
 class C13(F.PropCheck):
@@ -277,6 +280,8 @@ class C13(F.PropCheck):
             evs += [D] + boot()
             if rng.random() < 0.6: evs += [('TIMER', [], b''), D]
             evs += boot()
+            if rng.random() < 0.5:      # a second rejected sector in the same history: the identity must be generated anew
+                evs += [('FLASHIMG', [0], rng.choice([b'', rb(rng, 64), img_v7(rng, rng.choice(['zg', 'zk']))])), D] + boot(); tags.append('foreign:twice')
         elif sc == 'factory':
             evs += start_v7()
             if rng.random() < 0.5: evs += self.fault(rng); tags.append('reset-fault')
@@ -287,7 +292,7 @@ class C13(F.PropCheck):
             evs += start_v7(True) if rng.random() < 0.8 else boot()
             for _ in range(rng.randrange(1, 3)):
                 if rng.random() < 0.6: evs += self.fault(rng, 3); tags.append('post-fault')
-                req = http_post(rng)
+                req = http_post(rng, rng.choice(['full'] * 4 + ['few', 'get', 'other']))
                 evs += [('POST', [len(req)], req), D]
             evs += boot()
         return evs, tags
@@ -361,6 +366,10 @@ class C13(F.PropCheck):
         booted = None                             # (classification of flashc before boot, flashc, flashs, ret) awaiting a DUMP
         ident = None                              # (GUID, AuthKey) before a factory reset, awaiting a DUMP
         expect_sta = None                         # state record of the last state save that was not reported failed (sector not touched since)
+        expect_cfg = None                         # configuration record of the last save that returned success (sector not touched since)
+        post_keep = None                          # RAM configuration before a request that saved nothing, awaiting a DUMP
+        fact = None                               # (cfg saved ok?, state saved ok?) by factory_defaults(1), awaiting a DUMP
+        fresh_ids = []                            # (r0, GUID, AuthKey) generated by boots from rejected sectors
         powered = True
         def ops(seg):
             """per FLASH line: 'ok' | 'fail' | 'crash' according to the script"""
@@ -386,7 +395,7 @@ class C13(F.PropCheck):
             if k == 'ENV': continue
             if k == 'FLASHIMG':
                 img = (bytes(e[2]) + b'\xff' * l['SEC_SIZE'])[:l['SEC_SIZE']]
-                if e[1][0] == 0: flashc = img[:l['CFG_SIZE']]
+                if e[1][0] == 0: flashc = img[:l['CFG_SIZE']]; expect_cfg = None
                 else: flashs = img[:l['STATE_SIZE']]; expect_sta = None
                 saved.pop('cfg' if e[1][0] == 0 else 'state', None); continue
             if k == 'DUMP':
@@ -404,6 +413,9 @@ class C13(F.PropCheck):
                 saved = {}
                 if booted is not None and 'CFG' in d:
                     cls, fc0, fs0, ret = booted; c = d['CFG']
+                    if ret[2] is not None and valid7(ret[2]) and c != ret[2]:
+                        j = next(j for j in range(len(c)) if c[j] != ret[2][j])
+                        v.append('configuration loaded after restart differs at offset %d from the configuration the device saved last (that save returned success)' % j)
                     if cls is not None:
                         if cls[0] == 'exact':
                             if c != cls[1]:
@@ -415,6 +427,12 @@ class C13(F.PropCheck):
                         elif cls[0] == 'reject':
                             why = looks_fresh(c, cls[1])
                             if why: v.append('blank/foreign/zero-identity sector was not replaced by defaults with a new identity: ' + why)
+                            else:
+                                g = sl(c, l['O7_GUID'], l['GUID_SIZE']); kk = sl(c, l['O7_AUTHKEY'], l['AUTHKEY_SIZE'])
+                                for (r0o, go, ko) in fresh_ids:
+                                    if r0o != ret[3] and (go == g or ko == kk):
+                                        v.append('identity is not newly generated: two boots from rejected sectors with different random input produced the same %s' % ('GUID' if go == g else 'AuthKey')); break
+                                fresh_ids.append((ret[3], g, kk))
                         elif cls[0] == 'exact-unknown':
                             if ret[0] == 1 and valid7(c) and ret[1] is not None and d.get('STATE') != ret[1]:
                                 v.append('state loaded after restart differs from the state the device saved last (that save was not reported failed)')
@@ -427,27 +445,37 @@ class C13(F.PropCheck):
                     if (sl(c, l['O7_GUID'], l['GUID_SIZE']), sl(c, l['O7_AUTHKEY'], l['AUTHKEY_SIZE'])) != ident:
                         v.append('factory reset changed the device identity')
                     ident = None
+                if post_keep is not None and 'CFG' in d and d['CFG'] != post_keep:
+                    v.append('configuration in RAM changed although the request saved nothing')
+                post_keep = None
+                if fact is not None and 'CFG' in d:
+                    if fact[0] and fcn != d['CFG']: v.append('factory reset wrote the configuration sector successfully but it does not hold the reset record')
+                    elif fact[1] and fsn != d.get('STATE'): v.append('factory reset wrote the state sector successfully but it does not hold the reset state')
+                fact = None
                 if 'CFG' in d: ram_cfg = d['CFG']; ram_sta = d.get('STATE')
                 flashc, flashs = fcn, fsn
                 continue
             if k == 'INIT':
                 r = ops(seg); powered = not crashed
-                booted = None; saved = {}; ident = None; ram_cfg = None; ram_sta = None
+                booted = None; saved = {}; ident = None; ram_cfg = None; ram_sta = None; post_keep = None; fact = None
                 if not crashed and flashc is not None and last[0] == 'R':
-                    booted = (classify(flashc), flashc, flashs, (last[1][0], expect_sta))
-                elif not crashed and last[0] == 'R' and expect_sta is not None and r == []:
+                    booted = (classify(flashc), flashc, flashs, (last[1][0], expect_sta, expect_cfg, e[1][0]))
+                elif not crashed and last[0] == 'R' and r == [] and (expect_sta is not None or expect_cfg is not None):
                     # sector contents not dumped before the boot; the boot itself wrote nothing => an accepted record was loaded
-                    booted = (('exact-unknown',), None, None, (last[1][0], expect_sta))
-                flashc = None; flashs = None; expect_sta = None
+                    booted = (('exact-unknown',), None, None, (last[1][0], expect_sta, expect_cfg, e[1][0]))
+                elif not crashed and last[0] == 'R' and expect_cfg is not None:
+                    booted = (None, None, None, (last[1][0], None, expect_cfg, e[1][0]))
+                flashc = None; flashs = None; expect_sta = None; expect_cfg = None
                 continue
             if last[0] == 'R' and last[1] and last[1][0] == -1: continue      # not powered
-            if k == 'SETCFG': ram_cfg = (bytes(e[2]) + bytes(l['CFG_SIZE']))[:l['CFG_SIZE']]; booted = None; ident = None; continue
+            if k == 'SETCFG': ram_cfg = (bytes(e[2]) + bytes(l['CFG_SIZE']))[:l['CFG_SIZE']]; booted = None; ident = None; post_keep = None; fact = None; continue
             if k == 'SETSTATE': ram_sta = (bytes(e[2]) + bytes(l['STATE_SIZE']))[:l['STATE_SIZE']]; booted = None; continue
             r = ops(seg)
             if k == 'SAVECFG':
                 ok = (not crashed) and last[1][0] == 1
                 saved.pop('cfg', None)
                 if ram_cfg is not None: saved['cfg'] = (ram_cfg, ok, flashc)
+                expect_cfg = ram_cfg if ok else None
                 flashc = None
             elif k in ('SAVESTATE', 'TIMER'):
                 # the state save ran in this event (immediately, or the delayed one fired); it has no return value: it counts as
@@ -464,8 +492,12 @@ class C13(F.PropCheck):
                     if r: flashs = None
             elif k == 'FACTORY':
                 if ram_cfg is not None: ident = (sl(ram_cfg, l['O7_GUID'], l['GUID_SIZE']), sl(ram_cfg, l['O7_AUTHKEY'], l['AUTHKEY_SIZE']))
-                ram_cfg = None; ram_sta = None; saved = {}; booted = None; expect_sta = None
-                if r: flashc = None; flashs = None
+                ram_cfg = None; ram_sta = None; saved = {}; booted = None; post_keep = None
+                STADDR = (l['CFG_SECTOR_'] + l['STATE_SECTOR_OFFSET_']) * l['SEC_SIZE']
+                rc = [x for x in r if x[1] == CFGADDR]; rs = [x for x in r if x[1] == STADDR]
+                fact = (len(rc) == 2 and all(x[2] == 'ok' for x in rc) and not crashed, len(rs) == 2 and all(x[2] == 'ok' for x in rs) and not crashed)
+                if rc: flashc = None; expect_cfg = None
+                if rs: flashs = None; expect_sta = None
             elif k == 'POST':
                 sub = [o for o in seg if o[0] == 'SUBMIT']; after = [o for o in seg if o[0] == 'CFG']; sr = [o for o in seg if o[0] == 'SAVERET']
                 if sub:
@@ -476,8 +508,11 @@ class C13(F.PropCheck):
                         if not write_ok and a != ram_cfg: v.append('configuration in RAM was replaced although the flash write did not succeed')
                         if write_ok and a != bytes(sub[0][2]) and a != ram_cfg: v.append('configuration in RAM is neither the old nor the submitted one')
                     saved['cfg'] = (bytes(sub[0][2]), bool(sr) and sr[0][1][0] == 1, flashc)
-                    flashc = None; booted = None; ident = None
+                    expect_cfg = bytes(sub[0][2]) if (sr and sr[0][1][0] == 1) else None
+                    flashc = None; booted = None; ident = None; post_keep = None; fact = None
                     ram_cfg = bytes(after[0][2]) if after else None
+                elif not crashed and ram_cfg is not None and not r:
+                    post_keep = ram_cfg
             if crashed: powered = False; ram_cfg = None; ram_sta = None; ident = None
         return v
 
